@@ -64,3 +64,25 @@ func c08AuthWalk(n int) {
 func VerifC08AuthWalk28() { c08AuthWalk(28) }
 func VerifC08AuthWalk36() { c08AuthWalk(36) }
 func VerifC08AuthWalk60() { c08AuthWalk(60) }
+
+// the listener's reply to an authenticated request that asks for n cookies (cookie plus placeholder
+// fields: the number is the requester's choice, a network input): building the reply with n fresh
+// 124-byte cookies must not panic, also when it does not fit MaxPacketLen (n = 8: 1148 bytes)
+func c08ReplyEncode(n int) {
+	names := [...]string{"cookie0", "cookie1", "cookie2", "cookie3", "cookie4", "cookie5", "cookie6", "cookie7", "cookie8"}
+	s2c := v.Bytes("s2c", 32)
+	uid := v.Bytes("uid", 32)
+	var cookies [][]byte
+	for i := 0; i < n; i++ {
+		cookies = append(cookies, v.Bytes(names[i], 124))
+	}
+	resp := NewResponsePacket(cookies, s2c, uid)
+	buf := make([]byte, 48)
+	EncodePacket(&buf, &resp)
+	v.Assert(len(buf) <= MaxPacketLen, "C08.reply.encoded-reply-within-buffer")
+	v.Reach("C08.replyencode")
+}
+
+func VerifC08ReplyEncode7() { c08ReplyEncode(7) }
+func VerifC08ReplyEncode8() { c08ReplyEncode(8) }
+func VerifC08ReplyEncode9() { c08ReplyEncode(9) }
